@@ -141,27 +141,23 @@ def spec(structs, f):
         return R(t, 'checked_manhattan_distance')
     return None
 
+def spec_f1(cfg, structs, f):
+    isint = (f['self'] is not None and (vec_info(structs, f['self']) is not None)) or (f['self'] in INTS and f['trait'] and any(vec_info(structs, p[1]) for p in f['params']))
+    if not isint: return None
+    sp = spec(structs, f)
+    if sp is None:
+        if f['pub'] and f['self'] is not None and vec_info(structs, f['self']): UNCOVERED[f['name']] = UNCOVERED.get(f['name'], 0) + 1
+        return None
+    if f['fid'] is None or f.get('status') != 'ok': return 'untranslated'
+    vs, args, rhs, sname = sp
+    return {'vars': vs, 'lhs': 'run O tbl 40 %d%%positive %s' % (f['fid'], args), 'rhs': rhs, 'spec': sname}
+
+UNCOVERED = {}
 def lemmas(idx):
-    files = {}; seen = {}; notes = {'untranslated': [], 'uncovered_methods': {}}; n = 0; cover = []
-    for cfg in CFGS:
-        structs = idx.structs(cfg)
-        for f in idx.fns(cfg):
-            if f['generic']: continue
-            isint = (f['self'] is not None and (vec_info(structs, f['self']) is not None)) or (f['self'] in INTS and f['trait'] and any(vec_info(structs, p[1]) for p in f['params']))
-            if not isint: continue
-            try: sp = spec(structs, f)
-            except SymErr: sp = None
-            if sp is None:
-                if f['pub'] and f['self'] is not None and vec_info(structs, f['self']): notes['uncovered_methods'][f['name']] = notes['uncovered_methods'].get(f['name'], 0) + 1
-                continue
-            if f['fid'] is None or f.get('status') != 'ok':
-                notes['untranslated'].append('%s %s: %s' % (cfg, f['key'], (f.get('err') or f.get('status') or '?')[:60])); continue
-            vs, args, rhs, sname = sp
-            lhs = 'run O tbl 40 %d%%positive %s' % (f['fid'], args); key = (lhs, rhs); cover.append((cfg, f))
-            if key in seen: seen[key].meta['covers'].append('%s:%s' % (cfg, f['key'])); continue
-            n += 1; lem = Lemma('int_%d' % n, vs, lhs, rhs, meta={'cfg': cfg, 'key': f['key'], 'file': f['file'], 'fid': f['fid'], 'did': f['did'], 'covers': ['%s:%s' % (cfg, f['key'])], 'spec': sname})
-            seen[key] = lem; files.setdefault('Int_%02d' % (n // 150), []).append(lem)
-    notes['covered_methods'] = len(cover); notes['distinct_statements'] = n; notes['untranslated_count'] = len(notes['untranslated']); notes['untranslated'] = notes['untranslated'][:40]
+    from .. import f1
+    UNCOVERED.clear()
+    files, notes, cover = f1.build(idx, CFGS, 'int', spec_f1, per_file=100, pid='C13')
+    notes['uncovered_methods'] = dict(UNCOVERED); notes['covered_methods'] = len(cover)
     return files, notes, cover
 
 HDR = core.HDR.replace('Import Base Spec.', 'Import Base Spec IntSpec.')
@@ -182,5 +178,6 @@ def run(tier, seed):
            'rule': 'one lemma per distinct (function body, typed statement) of the integer-vector methods in the C13 table (27 types), for all Ops; plus the IntSpec.v lemmas tying compare-select combinators to the Rust primitives over Z; correspondence: %d random calls per function (boundary-biased lanes: MIN, MAX, 0, +-1, shift counts at/beyond the width), release profile; distinct = distinct (function, input words)' % per_fn,
            'samples': [{'lemma': l.name, 'statement': l.statement()[:400], 'covers': l.meta['covers'][:3]} for l in (list(files.values())[0][:2] if files else [])],
            'trusted_base': ['Coq 8.16.1 kernel + vm_compute', 'translator rs2v', 'evaluator Base.v', 'integer semantics ZInt in Sem.v (validated by the correspondence run)', 'spec table harness/props/C13.py + coq/theories/IntSpec.v'],
+           'covered_keys': ['%s:%s' % (c_, f_['key']) for c_, f_ in cover],
            'assumptions_text': ['model = translation of /repo/src by tools/rs2v (re-run on every check)', 'release-profile driver only in this tier; debug-profile (overflow-checking) driver in the thorough tier']}
     return flow.report('C13', tier, seed, t0, res)
